@@ -561,6 +561,9 @@ def _structure_step(out, tree, op, step, snap, recheck):
     elif kind == "setMult":
         # change the multiplicity of a component others are linked to through ``mult`` (clad/gap/wire: "fuel.mult")
         sibs = bn.children
+        if bn.parent is not None and bn.parent.level == "assembly" and not any(type(n.obj).__name__ == "DerivedShape" for n in sibs):
+            out.label("skip:setMult-would-change-block-size")  # (no derived coolant to take up the difference: see setPitch)
+            return snap
         targets_ = [n for n in sibs if "mult" in n.obj.DIMENSION_NAMES and not n.obj.dimensionIsLinked("mult")
                     and any(o is not n and "mult" in o.obj.DIMENSION_NAMES and o.obj.dimensionIsLinked("mult")
                             and o.obj.p.mult.getLinkedComponent() is n.obj for o in sibs)]
